@@ -129,6 +129,18 @@ static int run_scenario(var c, const char* sc) {
     if (map || kind == 'K') { push(c, $I(1)); return 1; }
     if (seq) { c_int(c); return 1; }                        /* containers have no C_Int */
   }
+  /* the class IS implemented but this member of it is NULL: reported as ClassError as well */
+  if (IS("unimplemented_member")) {
+    if (kind == 'S') { get(c, $I(0)); return 1; }                       /* String: Get without get/set */
+    if (rng) { set(c, $I(0), $I(1)); return 1; }                        /* Range/Slice: Get without set/rem */
+    if (seq) { look_from(c, $S("x"), 0); return 1; }                    /* containers: Show without look */
+    if (map || kind == 'K') { look_from(c, $S("x"), 0); return 1; }
+  }
+  if (IS("unimplemented_member2")) {
+    if (kind == 'S') { set(c, $I(0), $I(65)); return 1; }
+    if (rng) { rem(c, $I(0)); return 1; }
+    if (seq) { key_type(c); return 1; }                                 /* Get without key_type/val_type */
+  }
   if (IS("cast_wrong"))     { cast(c, Int); return 1; }
   return 0;
 }
